@@ -13,7 +13,8 @@ namespace Driver.C05
   case : {"cols":[{"ty","stats"}…], "rgs":[[[Val…]…]…], "preds":[E…]}       E = SqlJson + {"lit":{"i32":k}}
   impl : {"meta":[[STAT|null…]…], "preds":[{"keep":[i…],"might":[b…],"def":[b…],"mask":[OUT…]}…]}   (see harness/src/fam_c05.rs)
   K      : might / def / keep = IQE.Engine.Pruning on the statistics read back from the file (switches of the unchanged tree);
-           mask = IQE.Engine.Filter on the case's rows (the decoded row group is the written one)
+           mask = IQE.Engine.Filter on the case's rows (the decoded row group is the written one) = `Pruning.sem` (the
+           reference semantics the C05 theorems are stated over) on every predicate inside the fragment
   oracle : on the implementation's own outputs — a row group outside `keep` has no row whose mask is TRUE; a row group with
            `def` has only rows whose mask is TRUE; `keep` = the row groups with `might`
 -/
@@ -114,6 +115,22 @@ def firstSome {α} (l : List (Option α)) : Option α := l.findSome? id
 
 def floatCorner (v : Val) : Bool := match v with | .f64 x => x.isNaN || x.isZero | _ => false
 
+def cellOfVal : Val → Cell
+  | .int n => .int n | .date n => .int n | .f64 x => .f64 x | .str s => .str ⟨s.toUTF8.toList⟩ | _ => .null
+
+def opdIn : Opd → Bool | .other => false | .lit .other => false | _ => true
+/-- inside the fragment whose meaning `Pruning.sem` fixes (no conservative `other` parts) -/
+def inFrag : PE → Bool
+  | .cmp op l r => isCmpOp op && opdIn l && opdIn r
+  | .and a b => inFrag a && inFrag b
+  | .or a b => inFrag a && inFrag b
+  | .not e => inFrag e
+  | .between e lo hi _ => opdIn e && opdIn lo && opdIn hi
+  | .inList e items _ => opdIn e && items.all opdIn
+  | .other => false
+
+def valOfSem : Option Bool → Val | some b => .bool b | none => .null
+
 def handler : Driver.Handler := fun c i => do
   let rgsRows ← (← Driver.getArr c "rgs").toList.mapM Driver.SqlJson.tableOfJson
   let predsJ := (← Driver.getArr c "preds").toList
@@ -140,7 +157,10 @@ def handler : Driver.Handler := fun c i => do
     let (mMight, mDef) := run Pruning.Dev.current
     let mKeep := (List.range n).filter (fun k => mMight.getD k true)
     let mMasks := rgsRows.map (fun rows => allOk (rows.map (fun r => Filter.eval Filter.Dev.current fo r e)))
-    let k := might == mMight && defn == mDef && keep == mKeep && masks == mMasks
+    -- the theorems' reference semantics `Pruning.sem` must be the interpreter's on this fragment
+    let semOk := !inFrag pe || mMasks == rgsRows.map (fun rows => Out.ok (rows.map (fun r =>
+      valOfSem (sem fo.ofInt (fun _ => .null) (fun _ => none) (r.map cellOfVal) pe))))
+    let k := might == mMight && defn == mDef && keep == mKeep && masks == mMasks && semOk
     kAll := kAll && k
     modelOut := modelOut ++ [Json.mkObj [("might", Json.arr (mMight.map Json.bool).toArray), ("def", Json.arr (mDef.map Json.bool).toArray)]]
     -- oracle on the implementation's outputs
